@@ -32,7 +32,7 @@ RXV_SUBCOMMAND(c08) {
 	ip::enableGuards(true);
 	const unsigned long TOTAL = randomx_dataset_item_count();
 	for (const char* f : { "calls", "calls_count_lt_4", "calls_count_mod4_nonzero", "calls_count_mod4_zero", "calls_count_zero", "calls_ending_at_last_item", "calls_start_0", "items_compared_light", "items_compared_model", "canary_bytes_checked",
-		"threaded_rounds", "write_records", "initialiser_compiled", "initialiser_interpreter", "partitions" }) R.floorKey(f);
+		"threaded_rounds", "write_records", "initialiser_compiled", "initialiser_interpreter", "partitions", "edge_grid_calls", "small_calls_ending_at_last_item" }) R.floorKey(f);
 	if (thorough && args.shard == 0) R.floorKey("full_dataset_items_compared");
 
 	std::vector<uint8_t> key = cases::makeKey(rng, args.shard);
@@ -52,6 +52,38 @@ RXV_SUBCOMMAND(c08) {
 		g_realInit = cache->datasetInit; cache->datasetInit = &recordingInit;
 		R.count(jit ? "initialiser_compiled" : "initialiser_interpreter");
 
+		// ---- edge grid (first shards): every (start, count) near the end of the dataset, near 0 and at a few interior
+		// positions (incl. item numbers around 2^24 / 2^25), counts 0..12 - the small-count branch next to the boundaries
+		if (args.shard < 4) {
+			std::vector<std::pair<unsigned long, unsigned long>> grid;
+			for (unsigned long k = 1; k <= 13; ++k) for (unsigned long c = 0; c <= k; ++c) grid.push_back({ TOTAL - k, c });
+			for (unsigned long st : { 0UL, 1UL, 3UL, 16777214UL, 33554429UL, (unsigned long)rng.below(TOTAL - 64) }) for (unsigned long c = 0; c <= 12; ++c) grid.push_back({ st, c });
+			for (size_t gi = args.shard; gi < grid.size(); gi += 4) {
+				const unsigned long st = grid[gi].first, c = grid[gi].second;
+				const unsigned long cs = st >= 8 ? st - 8 : 0, ce = std::min(TOTAL, st + c + 8);
+				std::string cj = "{\"key\":\"" + keyHex + "\",\"initialiser\":\"" + (jit ? "compiled" : "interpreter") + "\",\"edge_grid\":true,\"start\":" + std::to_string(st) + ",\"count\":" + std::to_string(c) + "}";
+				R.setCase(cj);
+				memset(mem + cs * 64, 0x5c, (ce - cs) * 64);
+				api::threadIndex() = 0;
+				api::initDataset(ds, cache, st, c);
+				bool ok = true;
+				for (unsigned long i = cs * 64; i < st * 64 && ok; ++i) if (mem[i] != 0x5c) ok = false;
+				for (unsigned long i = (st + c) * 64; i < ce * 64 && ok; ++i) if (mem[i] != 0x5c) ok = false;
+				if (!ok) R.violation(std::string("C08:canary:bytes-outside-requested-range-changed:") + (jit ? "compiled" : "interpreter"), cj);
+				for (unsigned long it = st; it < st + c; ++it) {
+					uint8_t light[64]; { ip::Api s("initDatasetItem"); randomx::initDatasetItem(cache, light, it); }
+					uint8_t want[64]; mc.item(it, want);
+					if (memcmp(light, mem + it * 64, 64)) { R.violation(std::string("C08:differential:dataset-item-differs-from-light-item:") + (jit ? "compiled" : "interpreter"), "{\"case\":" + cj + ",\"item\":" + std::to_string(it) + "}"); break; }
+					if (memcmp(want, mem + it * 64, 64)) { R.violation(std::string("C08:model:dataset-item-differs-from-spec:") + (jit ? "compiled" : "interpreter"), "{\"case\":" + cj + ",\"item\":" + std::to_string(it) + "}"); break; }
+					R.count("items_compared_light"); R.count("items_compared_model");
+				}
+				R.count("calls"); R.count("edge_grid_calls"); if (c && st + c == TOTAL) { R.count("calls_ending_at_last_item"); if (c < 4) R.count("small_calls_ending_at_last_item"); }
+				if (c == 0) R.count("calls_count_zero"); else if (c < 4) R.count("calls_count_lt_4"); else if (c % 4) R.count("calls_count_mod4_nonzero"); else R.count("calls_count_mod4_zero");
+				R.evaluation(); R.nontrivial(fnv1a(cj.data(), cj.size()));
+				{ std::lock_guard<std::mutex> l(g_wmu); g_writes.clear(); }
+			}
+			R.clearCase();
+		}
 		for (uint64_t round = 0; round < nRounds; ++round) {
 			// ---- a window of the dataset and a partition of (part of) it into consecutive calls
 			const unsigned long maxLen = jit ? 20000 : 3000; // the interpreter initialiser is ~8 us per item
